@@ -97,6 +97,11 @@ let string_of_state s =
   Printf.bprintf b " | X%d" (List.length s.g_execs);
   Buffer.contents b
 
+(* candidate invariant clauses that are false in this state (indices into EngineInv.inv_clauses) *)
+let failing_clauses s =
+  let cl = inv_clauses s in
+  String.concat "," (List.filteri (fun _ x -> x <> "") (List.mapi (fun i b -> if b then "" else string_of_int i) cl))
+
 let () =
   let stages = ref [] and wmax = ref None and scripts = Hashtbl.create 16 and st = ref None in
   let orc i t n =
@@ -123,7 +128,8 @@ let () =
             | _ -> failwith ("action " ^ line) in
           let s = get () in
           let tr = step_trace orc s a in
-          List.iter (fun s' -> print_endline ("  " ^ string_of_state s')) tr;
+          List.iter (fun s' -> print_endline ("  " ^ string_of_state s');
+                      let f = failing_clauses s' in if f <> "" then print_endline ("  !INV " ^ f)) tr;
           st := Some (step orc s a);
           print_endline "."
       | "END" :: _ -> print_endline "END"
